@@ -254,6 +254,17 @@ def run_case(case):
         "domain": {"nx": 8, "ny": 8, "xmax": 80.0, "ymax": 80.0, "nz": 4, "ref_lat": pts[0][0], "ref_lon": pts[0][1]},
         "towers": [{k_: v_ for k_, v_ in t_.items() if not k_.startswith("_")} for t_ in tw], "met": {"ustar": 0.3}, **other,
     })
+    # the configuration assembled in Python from the dataclasses: the caller keeps its own references to the towers and finds them located
+    from bldfm.config_parser import BLDFMConfig as _BC, DomainConfig as _DC, TowerConfig as _TC, MetConfig as _MC
+
+    mine = [_TC(name=t_["name"], lat=t_["lat"], lon=t_["lon"], z_m=t_["z_m"]) for t_ in tw[:4]]
+    _BC(domain=_DC(nx=8, ny=8, xmax=80.0, ymax=80.0, nz=4, ref_lat=pts[0][0], ref_lon=pts[0][1]), towers=mine, met=_MC(ustar=0.3))
+    for t_, spec in zip(mine, tw[:4]):
+        counters["config_towers"] += 1
+        ex, ey = latlon_to_xy(spec["lat"], spec["lon"], pts[0][0], pts[0][1])
+        if (t_.x, t_.y) != (ex, ey):
+            viol.append({"what": "config_tower_xy", "form": "the caller's own tower object after the configuration was assembled from dataclasses", "tower": spec,
+                         "got": (t_.x, t_.y), "expected": (ex, ey)})
     for t, spec in zip(cfg.towers, tw):
         counters["config_towers"] += 1
         ex, ey = latlon_to_xy(spec["lat"], spec["lon"], pts[0][0], pts[0][1])
